@@ -28,10 +28,11 @@ PROPS = "Props/C18.v"
 EXTRACT = "extract/ExC18.v"
 OBLIGATION = "identify"
 THEOREMS = [
-    "C18_all_cfgs_complete", "C18_all_cfgs_count", "C18_agree_refuted", "C18_deviations_exact", "C18_agree_partial",
-    "C18_agree_if_repaired", "C18_scope_covers_literal", "C18_no_crash", "C18_verify_exit", "C18_print_designated",
+    "C18_all_cfgs_complete", "C18_all_cfgs_count", "C18_agree", "C18_scope_covers_literal", "C18_no_crash",
+    "C18_verify_exit", "C18_print_designated",
     "C18_agree_refuted_old_realpath", "C18_agree_refuted_old_rectype", "C18_agree_refuted_old_autolink",
-    "C18_old_deviations_exact", "C18_strict_reading_differs", "C18_in_scope_satisfiable",
+    "C18_agree_refuted_old_recursive_follows", "C18_old_deviations_exact", "C18_strict_reading_differs",
+    "C18_in_scope_satisfiable",
 ]
 RULE = ("every one of the 1680 configurations (argument kind x --type x dereference x filename x recursive x "
         "verify x exclude) on each generated fixture set (random file contents, names, tree shapes, link targets, "
@@ -80,7 +81,7 @@ _TABLE = {}
 
 
 def parse_row(line):
-    """ok inscope=1 des=dirpath,1 model=print,dirpath,1,1,0 spec=... old1=... old2=... old3=..."""
+    """ok inscope=1 literal=1 des=dirpath,1 model=print,dirpath,1,1,0 spec=... strict=... old1=... .. old4=..."""
     if not line.startswith("ok "):
         raise RuntimeError("driver: " + line)
     row = {}
@@ -582,14 +583,6 @@ def compare(c, ires, mres):
     why = diff(ires, expected(c, mres["model"]))
     if why:
         return "identify_model %s: %s" % (mres["model"], why)
-    return None
-
-
-def finding_key(c, ires, mres):
-    """-r ignores --no-dereference: `identify -r --no-dereference <link->dir>` lists the directory behind the link"""
-    k, t, d, f, r, v, x = c["cfg"]
-    if k == "linkdir" and not d and r and t in ("auto", "content"):
-        return "C18-recursive-ignores-no-dereference"
     return None
 
 
